@@ -20,7 +20,7 @@ pub fn do_router(
     max_spread: &Option<String>,
     fault: Fault,
 ) {
-    if path.len() < 2 || path.iter().any(|p| *p > 2) {
+    if path.len() < 2 || path.iter().any(|p| *p > 2) || path.windows(2).any(|w| w[0] == w[1]) {
         return;
     }
     let who = s.user(actor);
@@ -49,11 +49,7 @@ pub fn do_router(
     {
         let mut amt = amount;
         for w in path.windows(2) {
-            let (pair, offer_idx) = if (w[0] == 0 && w[1] == 1) || (w[0] == 1 && w[1] == 0) {
-                (s.pair.clone(), w[0])
-            } else {
-                (s.pair2.clone(), w[0])
-            };
+            let (pair, offer_idx) = (s.pair_for(w[0], w[1]).to_string(), w[0]);
             match s.simulate(&pair, offer_idx, amt) {
                 Ok(q) => {
                     if pair == s.pair {
